@@ -34,6 +34,12 @@ def run(rep):
         common.apply_common(s)
         s.append("isomorphism/src/iso_term.rs", common.expand(open(core.VERIF + "/contracts/iso/kani_iso.rs").read(), "iso"))
         failed = kani_unit.run_harnesses(rep, s, "sophia_isomorphism", HARNESSES, jobs=4)
+    # bounded stand-in for the part no contract reaches (colour refinement over HashMap + SipHash): the real
+    # isomorphic_datasets on an exhaustive small domain
+    native.bounded_stand_in(rep, ID, "c07", [], "c07_enumerator",
+                            "every dataset of <= 2 quads over 6 subjects x 8 objects (IRIs, 2 blank nodes, literal, 3 quoted-triple shapes incl. a blank predicate) x 3 graph names: 3 label bijections x 2 statement orders must be isomorphic in both argument orders; a changed ground IRI, a dropped quad, merged co-occurring blank nodes must not",
+                            "<= 2 quads", "isomorphic_datasets, make_b2q_map, make_map, make_equivalence_classes, hash_quad_with (isomorphism/src/dataset.rs, hash.rs)",
+                            "./check C07 --replay <this file>")
     if failed:
         rc, out, err, secs = native.run_replay(ID, "c07", [])
         witness, confirmed = (out.strip().splitlines()[-1], True) if rc == 1 else (None, False)
